@@ -49,6 +49,24 @@ CLAIMED.update({
         note="PEP 263 coding cookies out of scope; relies on C03/C11 rules for the line lookup itself"),
 })
 
+CLAIMED.update({
+    "C13": dict(
+        technique="exhaustive effect inventory (who may write module/class/instance state), purity of cached functions, hash-order sink lint backed by constant-folded regex facts",
+        category="other",
+        text="Decides absence of shared mutable state: no function writes module-level bindings, caches wrap pure functions, no class-level mutable containers or mutable defaults, no import-time instances, fresh containers per constructor, context singletons never written, the only set-ordered construction is order-insensitive, and every instance attribute written outside a constructor is in a reviewed table of position-keyed caches / paired flags. Determinism, history-freedom and thread-safety follow from these; interleavings are not enumerated.",
+        note="aliasing of module-level containers through locals is not tracked; pairing rules of the reviewed table are decided under C14/C07/C15"),
+    "C14": dict(
+        technique="typestate of parser/tokenizer state attributes: set->commit(cut)->consume->reset pairing on the grammar IR and the helper code, balanced counters, structural INDENT/DEDENT pairing",
+        category="other",
+        text="Decides state neutrality at statement end (necessary for whole = concatenation of parts): every state attribute written outside a constructor is position-keyed, a balanced counter, or a flag whose setter is committed by a cut and whose consumer resets it in the same alternative; with-macro capture swallows a balanced INDENT/DEDENT pair; NEWLINE only at bracket depth 0 and outside f-string literal mode; module body = in-order concatenation of statement+. The whole-vs-parts equality itself is not decided.",
+        note="memo entries are keyed by token index so cannot be hit across statements; the CLASSIFIED table is the trusted reading of each attribute"),
+    "C15": dict(
+        technique="partial evaluation: residual programs under verbose=False/True after erasing print-only effects must be syntactically equal (plus a locally checked lemma); who-may-read rule and monotone-gate shape for py_version",
+        category="other",
+        text="Decides that the verbose flag guards only print-only effects in every function that reads it (residual equality after three sound normalisations; the left-recursive wrapper's one difference is discharged by a lemma on what is stored with a falsy tree), and that py_version is read only by a monotone gate clamped by the interpreter and applied with the right floors to exactly the three gated constructs, each of which is built only under its gate.",
+        note="assumes showpeek() only peeks and str()/repr() in log lines are effect-free"),
+})
+
 NOT_APPLICABLE = {
     "C17": "quantifies over all grammars x all token strings; semantic equivalence of emitted code and a PEG interpreter cannot be decided from the shape of the generator source (DESIGN.md §5)",
 }
